@@ -65,7 +65,7 @@ HOOKS = {
     "core": ["src/lib.rs", "src/value.rs", "src/program/program.rs", "src/program/symbol_table.rs",
              "src/program/compiler/constants.rs", "src/program/compiler/context.rs", "src/program/compiler/sections.rs",
              "src/structures/set.rs", "src/structures/matrix.rs"],
-    "interpreter": ["src/lib.rs", "src/stdlib/access/matrix.rs", "src/stdlib/access/mod.rs", "src/stdlib/assign/matrix.rs",
+    "interpreter": ["src/lib.rs", "src/interpreter.rs", "src/stdlib/access/matrix.rs", "src/stdlib/access/mod.rs", "src/stdlib/assign/matrix.rs",
                     "src/stdlib/assign/mod.rs", "src/stdlib/horzcat.rs", "src/stdlib/vertcat.rs", "src/stdlib/convert/mod.rs",
                     "src/stdlib/convert/scalar.rs", "src/stdlib/convert/mat_to_mat.rs", "src/stdlib/convert/scalar_to_mat.rs",
                     "src/statements.rs", "src/literals.rs", "src/structures.rs"],
